@@ -2,6 +2,8 @@
 //! verdicts are taken by TLC evaluating the TLA+ specification on the logged events.
 mod absval;
 mod gen;
+mod jtree;
+mod ops_json;
 mod ops_zinc;
 mod util;
 
@@ -17,6 +19,7 @@ fn dispatch(vec: &J) -> Result<J, String> {
     let dom = op.split('.').next().unwrap_or("");
     match dom {
         "zinc" => ops_zinc::run(vec),
+        "hayson" => ops_json::run(vec),
         _ => Err(format!("unknown op {op}")),
     }
 }
@@ -55,6 +58,13 @@ fn main() {
                         let v = g.value(depth);
                         let vj = absval::alpha(&v);
                         out.emit(ops_zinc::zinc_rt(&v, &vj));
+                    }
+                }
+                "hayson" => {
+                    for _ in 0..n {
+                        let v = g.value(depth);
+                        let vj = absval::alpha(&v);
+                        out.emit(ops_json::hayson_rt(&v, &vj));
                     }
                 }
                 _ => {
